@@ -124,8 +124,9 @@ def write_cfgs(cfgs: list, scratch: Path, name: str = 'cfgs') -> Path:
 
 
 def labrun_cfg_text(*, invariants: Iterable[str], properties: Iterable[str] = (), max_int: int = 0,
-                    allow_die: bool = True, record: bool = False, spec: str = 'Spec', logs: bool = False) -> str:
-    lines = ['CONSTANTS', f'  Logs = {"TRUE" if logs else "FALSE"}', f'  RecordHist = {"TRUE" if record else "FALSE"}', f'  MaxInt = {max_int}',
+                    allow_die: bool = True, record: bool = False, spec: str = 'Spec', logs: bool = False,
+                    grow: bool = False) -> str:
+    lines = ['CONSTANTS', f'  Grow = {"TRUE" if grow else "FALSE"}', f'  Logs = {"TRUE" if logs else "FALSE"}', f'  RecordHist = {"TRUE" if record else "FALSE"}', f'  MaxInt = {max_int}',
              f'  AllowDie = {"TRUE" if allow_die else "FALSE"}', f'SPECIFICATION {spec}']
     lines += [f'INVARIANT {i}' for i in invariants]
     lines += [f'PROPERTY {p}' for p in properties]
